@@ -597,8 +597,8 @@ def fit_predict_degenerate_bounded_instance(pinned=False):
             return {'model': B.choose('model', ['cbmm']), 'data': B.choose('data', ['few-frames']), 'K': B.choose('K', [1]), 'it': B.choose('it', [1]),
                     'wca': B.choose('wca', [(-3,)]), 'norm': B.choose('norm', ['eigenvalue']), 'seed': B.choose('seed', [707]), 'd': B.given('d', np.zeros(1))}
         return {'model': B.choose('model', ['cacgmm', 'cwmm', 'gmm', 'vmfmm', 'gcacgmm', 'vmfcacgmm', 'cacgmm', 'cbmm']),
-                'data': B.choose('data', ['generic', 'zero-bin', 'zero-frames', 'duplicated', 'collinear', 'few-frames', 'tiny', 'huge']),
-                'K': B.choose('K', [1, 2, 3]), 'it': B.choose('it', [1, 2, 4]), 'wca': B.choose('wca', [(-1,), (-3,), (-3, -1)]),
+                'data': B.choose('data', ['generic', 'zero-bin', 'zero-bin', 'zero-frames', 'duplicated', 'collinear', 'few-frames', 'tiny', 'huge']),
+                'K': B.choose('K', [1, 2, 3]), 'it': B.choose('it', [1, 1, 2, 4]), 'wca': B.choose('wca', [(-1,), (-3,), (-3, -1)]),
                 'norm': B.choose('norm', ['eigenvalue', 'trace', False]), 'seed': B.choose('seed', list(range(3000))), 'd': B.given('d', np.zeros(1))}
 
     def call(inp):
@@ -652,7 +652,7 @@ def fit_predict_degenerate_bounded_instance(pinned=False):
             yield 'sums-to-one[%s]' % out['model'], bool(np.allclose(p.sum(-2), 1.0, rtol=0, atol=1e-8))
 
     return Instance('C01', 'pb_bss.distribution.*Trainer.fit_predict', 'bounded-fit_predict-on-degenerate-data' + ('-pinned-known-finding-%s' % pinned if pinned else ''),
-                    make, call, ensures, mode='bounded', bounded_n=1 if pinned else 100, frame=False, fixed_seed=bool(pinned))
+                    make, call, ensures, mode='bounded', bounded_n=1 if pinned else 300, frame=False, fixed_seed=bool(pinned))
 
 
 _instances_before_degenerate = instances
